@@ -565,6 +565,16 @@ End WithRec.
 Definition struct_fields_nc (s : struct) : list field := non_const (s_fields s).
 Definition no_dec (_ : string) (_ : bytes) : result value := unsupported.
 
+(* the `size` property of a struct class, given the codecs of the member types *)
+Definition size_struct_with (R : rec_ops) (s : struct) (v : value) : result Z :=
+  let allfs := struct_fields_nc s in
+  match base_struct s with
+  | Some b =>
+    bind (size_fields R allfs v (struct_fields_nc b)) (fun hs =>
+    bind (size_fields R allfs v (own_fields s)) (fun os => Ok (hs + os)))
+  | None => size_fields R allfs v (own_fields s)
+  end.
+
 (* A._deserialize(buffer, instance): returns locals, window start, window end (R: codecs of the member types) *)
 Definition dec_header_with (R : rec_ops) (b : struct) (allfs : list field) (buf : bytes) : result (list (string * value) * Z * Z) :=
   let bfs := struct_fields_nc b in
@@ -660,7 +670,7 @@ with enc_struct (fuel : nat) (s : struct) (v : value) {struct fuel} : result byt
   | O => Crash "OutOfFuel"
   | S k =>
     let allfs := struct_fields_nc s in
-    bind (size_struct k s v) (fun total =>
+    bind (size_struct_with {| enc_t := enc k; size_t := size k; dec_t := dec k; decf_t := decf k; key_t := key k |} s v) (fun total =>
     match base_struct s with
     | Some b =>
       bind (serialize_fields_go {| enc_t := enc k; size_t := size k; dec_t := dec k; decf_t := decf k; key_t := key k |} b allfs total v true (struct_fields_nc b)) (fun hb =>
@@ -671,14 +681,7 @@ with enc_struct (fuel : nat) (s : struct) (v : value) {struct fuel} : result byt
 with size_struct (fuel : nat) (s : struct) (v : value) {struct fuel} : result Z :=
   match fuel with
   | O => Crash "OutOfFuel"
-  | S k =>
-    let allfs := struct_fields_nc s in
-    match base_struct s with
-    | Some b =>
-      bind (size_fields {| enc_t := enc k; size_t := size k; dec_t := dec k; decf_t := decf k; key_t := key k |} allfs v (struct_fields_nc b)) (fun hs =>
-      bind (size_fields {| enc_t := enc k; size_t := size k; dec_t := dec k; decf_t := decf k; key_t := key k |} allfs v (own_fields s)) (fun os => Ok (hs + os)))
-    | None => size_fields {| enc_t := enc k; size_t := size k; dec_t := dec k; decf_t := decf k; key_t := key k |} allfs v (own_fields s)
-    end
+  | S k => size_struct_with {| enc_t := enc k; size_t := size k; dec_t := dec k; decf_t := decf k; key_t := key k |} s v
   end
 with dec (fuel : nat) (t : string) (buf : bytes) {struct fuel} : result value :=
   match fuel with
